@@ -330,7 +330,7 @@ func (x *evExec) do(e c02Ev, inBurst bool) {
 			l := cl.L
 			w.mu.Unlock()
 			w.wg.Add(1)
-			go func() { defer w.wg.Done(); complete(l, e.Outcome) }()
+			go func() { defer w.wg.Done(); defer notePanic(); complete(l, e.Outcome) }()
 		} else {
 			w.release(cl, e.Outcome)
 		}
